@@ -53,6 +53,9 @@ def _where_with_refs(draw, later, force_ref=None, max_depth=1):
         if draw(st.integers(0, 3)) == 0:
             atom = {"t": "sub", "or": {"ands": [{"atoms": [atom]}, {"atoms": [draw(G.hit_atom(2, 2))]}]}}
         target["atoms"].insert(where, atom)
+    if len(o["ands"]) >= 2 and draw(st.integers(0, 4)) == 0:
+        # every alternative in parentheses of its own: "(a b) | (c)" starts with "(" and ends with ")"
+        o = {"ands": [{"atoms": [{"t": "sub", "or": {"ands": [af]}}]} for af in o["ands"]]}
     return o
 
 
